@@ -521,6 +521,69 @@ fn varints(ctx: &Ctx) -> Stats {
     stats
 }
 
+/// v5 packets of every kind that carries properties, with one user property whose value length is swept so that
+/// the property block crosses the 127/128 and 16383/16384 (thorough: 2097151/2097152) varint boundaries
+fn prop_boundary_sweep(ctx: &Ctx) -> Stats {
+    let mut ranges: Vec<std::ops::Range<usize>> = vec![90..135, 16_340..16_392];
+    if ctx.tier == Tier::Thorough {
+        ranges.push(2_097_100..2_097_160);
+    }
+    let kinds = 14u8;
+    par_shards(WORKERS, |shard| {
+        let mut st = Stats::default();
+        let mut idx = 0usize;
+        for r in &ranges {
+            for n in r.clone() {
+                for kind in 0..kinds {
+                    idx += 1;
+                    if idx % WORKERS != shard {
+                        continue;
+                    }
+                    // a string is at most 65535 bytes: larger blocks are built from several user properties
+                    let mut ups: s5::UserProps = Vec::new();
+                    let mut left = n;
+                    while left > 60_000 {
+                        ups.push(("k".into(), "w".repeat(60_000)));
+                        left -= 60_000;
+                    }
+                    ups.push(("k".into(), "v".repeat(left)));
+                    let pkt = match kind {
+                        0 => P5::Connect(Box::new(s5::Connect5 { client_id: "c".into(), clean_start: true, user_props: ups, ..Default::default() })),
+                        1 => P5::Connect(Box::new(s5::Connect5 { client_id: "c".into(), clean_start: true, will: Some(s5::Will5 { topic: "w".into(), user_props: ups, ..Default::default() }), ..Default::default() })),
+                        2 => P5::ConnAck(Box::new(s5::ConnAck5 { user_props: ups, ..Default::default() })),
+                        3 => P5::Publish(Box::new(s5::Publish5 { topic: "t".into(), qos: 1, pid: Some(7), payload_len: 3, user_props: ups, ..Default::default() })),
+                        4 => P5::PubAck(s5::Ack5 { pid: 7, reason: 0x10, user_props: ups, ..Default::default() }),
+                        5 => P5::PubRec(s5::Ack5 { pid: 7, user_props: ups, ..Default::default() }),
+                        6 => P5::PubRel(s5::Ack5 { pid: 7, user_props: ups, ..Default::default() }),
+                        7 => P5::PubComp(s5::Ack5 { pid: 7, user_props: ups, ..Default::default() }),
+                        8 => P5::Subscribe(s5::Sub5 { pid: 7, user_props: ups, filters: vec![("a".into(), s5::SubOpts::default())], ..Default::default() }),
+                        9 => P5::SubAck(s5::SubAck5 { pid: 7, codes: vec![0], user_props: ups, ..Default::default() }),
+                        10 => P5::Unsubscribe(s5::Unsub5 { pid: 7, user_props: ups, filters: vec!["a".into()] }),
+                        11 => P5::UnsubAck(s5::SubAck5 { pid: 7, codes: vec![0], user_props: ups, ..Default::default() }),
+                        12 => P5::Disconnect(s5::Disc5 { reason: 0x81, user_props: ups, ..Default::default() }),
+                        _ => P5::Auth(s5::Auth5 { reason: 0x18, auth_method: Some("m".into()), user_props: ups, ..Default::default() }),
+                    };
+                    let case = Case5 { pkt: pkt.normalize(), layout: Layout::default(), payload_seed: n as u32 };
+                    st.evaluations += 1;
+                    match check_case5(&case) {
+                        Ok(mut info) => {
+                            info.nontrivial = Some(hash_of(&("prop-boundary", kind, n)));
+                            info.labels.push("property-block-near-varint-boundary");
+                            st.record(&info);
+                            st.evaluations -= 1;
+                        }
+                        Err(f) => {
+                            let f = Failure { signature: format!("{}/property-block-boundary", f.signature), ..f };
+                            st.fail(f.with_case(json!({"kind": "v5", "brief": format!("kind {kind}, user property value of {n} bytes"), "case": case})));
+                        }
+                    }
+                }
+            }
+        }
+        st
+    })
+}
+
 fn case5_strategy() -> impl Strategy<Value = Case5> {
     (strat::p5(), strat::layout(), any::<u32>()).prop_map(|(pkt, layout, payload_seed)| Case5 { pkt, layout, payload_seed })
 }
@@ -562,12 +625,13 @@ pub fn run(ctx: &Ctx, started: Instant) -> i32 {
         st
     });
     stats.merge(varints(ctx));
+    stats.merge(prop_boundary_sweep(ctx));
     let report = Report {
         level: "exploration",
         rule: "proptest-generated packet values of all 14 v3 and 15 v5 kinds (every optional field/property independently \
                present, all reason codes, boundary string lengths, PUBLISH Remaining Length aimed at every 1/2/3/4-byte boundary; \
                huge payloads header-only) through: library encode -> independent spec decoder; library encode -> library decode; \
-               spec encoder with random property order / explicit defaults / short forms -> library decode; plus variable byte \
+               spec encoder with random property order / explicit defaults / short forms -> library decode; a sweep of every property-carrying v5 kind with a user property sized so that the property block crosses the 127/128 and 16383/16384 (thorough: 2097151/2097152) boundaries; plus variable byte \
                integers (quick: all n < 2^17, boundaries, samples; thorough: all 2^28). Non-trivial = some optional present, or a \
                boundary-class length, or RL >= 2 bytes; distinct = (version, kind, presence/length-class shape, RL width, layout class)"
             .into(),
